@@ -14,6 +14,11 @@ use tower::Service;
 
 pub fn gen(r: &mut Rng, _i: u64) -> String {
     let d = *r.pick(&[0u64, 1, 5, 10, 20, 50]);
+    if r.chance(1, 25) {
+        // the longest duration there is: the deadline never comes
+        let t = r.below(70);
+        return format!("max {t} {} ; 0 {t} {}", r.chance(2, 3) as u8, t + 5);
+    }
     let t = match r.below(8) {
         0 => "-".to_string(),
         1 => d.to_string(),                               // exactly at the deadline
@@ -73,6 +78,8 @@ fn timeout_err() -> &'static str { "timeout" }
 pub fn run(toks: &[&str]) -> String {
     let split = toks.iter().position(|t| *t == ";").unwrap_or(toks.len());
     if split < 3 { return "bad-input".into(); }
+    // `max`: the longest duration there is
+    let huge = toks[0] == "max";
     let d: u64 = toks[0].parse().unwrap_or(0);
     let t: Option<u64> = toks[1].parse().ok();
     let ok = toks[2] == "1";
@@ -91,9 +98,10 @@ pub fn run(toks: &[&str]) -> String {
                 dropped: d2.clone(),
             }
         });
-        let mut svc = hyperdriver::service::Timeout::new(inner, Duration::from_millis(d), Box::new(timeout_err as fn() -> &'static str));
+        let mut svc = hyperdriver::service::Timeout::new(inner, if huge { Duration::MAX } else { Duration::from_millis(d) }, Box::new(timeout_err as fn() -> &'static str));
         let t0 = tokio::time::Instant::now();
-        let mut fut = Box::pin(svc.call(()));
+        let Ok(fut) = std::panic::catch_unwind(std::panic::AssertUnwindSafe(|| svc.call(()))) else { return "panic 0 0 1".to_string() };
+        let mut fut = Box::pin(fut);
         let waker = futures_util::task::noop_waker();
         let mut cx = Context::from_waker(&waker);
         let mut res = "pending 0".to_string();
